@@ -4,7 +4,7 @@ Findings on the unchanged tree (FAMILIES below are the fallback keys, matched on
   new  t where b < "" or b <= 3 selects nothing (an empty index span makes the whole or a conflict)
        (independently repaired in /repo by c4fc97c)          key qexpr-or-with-empty-alternative-selects-nothing
   new  t extend z = 2 / d fails with ASSERT FAILED: should not reach here (consequence of the folder
-       putting the divide first, fixed by the C30 folder fix)                key qexpr-const-div-field-assert
+       putting the divide first, fixed by the C30 folder fix)                key qexpr-const-div-field-reciprocal (was an ASSERT before the 1 / x fix)
   new  is / isnt / in on stored encodings of equal objects whose named members were inserted in different
        orders is false (no small fix: packing order)   key qexpr-object-equality-named-order-on-stored-encoding
   new  < <= > >= with object operands on stored encodings compare bytes, not list members
@@ -37,55 +37,97 @@ META = {
  "technique": "TLA+ model checking (TLC) of the reference evaluator + trace validation of real expression evaluation and real queries",
 }
 
+# the same folder defects are recorded under C30; a query expression that shows one of them is
+# attributed to that record (no separate C25 entry needed)
+ALIAS = {
+    "qexpr-fold-absorbing-shortcut": ("C30", "fold-absorbing-shortcut"),
+    "qexpr-fold-bits-32bit-allones": ("C30", "fold-bits-32bit-allones"),
+    "qexpr-const-div-field-reciprocal": ("C30", "fold-const-div-var-reciprocal"),
+}
+
 FAMILIES = {
+    "qexpr-fold-absorbing-shortcut": "field * 0, field & 0, field and false, field or true are folded to the constant although the field's value is not valid for the operator (C30 fold-absorbing-shortcut)",
+    "qexpr-fold-bits-32bit-allones": "& / | with a constant that does not fit 32 bits unsigned (C30 fold-bits-32bit-allones)",
     "qexpr-object-order-on-stored-encoding": "order comparison (< <= > >=) with an object operand: stored encodings are compared bytewise, the language compares list members (named members ignored)",
     "qexpr-object-equality-named-order-on-stored-encoding": "is / isnt / in on stored encodings of objects with several named members depends on their insertion order",
-    "qexpr-const-div-field-assert": "constant / field in a query expression fails with ASSERT FAILED: should not reach here",
+    "qexpr-const-div-field-reciprocal": "constant / field is evaluated as (1 / field) * constant (same folder defect as C30 fold-const-div-var-reciprocal): 255 / c gives 84.99999999999999 for c = 3",
     "qexpr-or-with-empty-alternative-selects-nothing": "where x < \"\" or <other condition on x> selects nothing",
     "qexpr-transform-shortcut": "where over extend/rename: <operand> or true / <operand> and false is replaced by the constant although the operand is still evaluated (and type checked) in the plain where",
 }
 
 
-def subtree_leaves(x, acc):
-    if x["op"] == "x":
-        acc.append(x["i"])
-    else:
-        for a in x["a"]:
-            subtree_leaves(a, acc)
-    return acc
-
-
 def classify(ev, rows):
+    """recorded findings whose exact expression shape occurs in the rejected expression:
+    judged on the values the operands take on the rows of the table"""
+    from valuesutil import nodes, evalx, eq, num
+    from decimal import Decimal, localcontext
     fams = set()
 
-    def leaf_values(i):
-        c = ev["col"][i - 1]
-        return [ev["cv"][i - 1]] if c == 0 else [r[c - 1] for r in rows]
+    def leafval(r):
+        def f(i):
+            c = ev["col"][i - 1]
+            return ev["cv"][i - 1] if c == 0 else r[c - 1]
+        return f
 
-    def is_obj(v):
-        return v.get("t") == "obj"
+    def is_const(x):
+        return all(n["op"] != "x" or ev["col"][n["i"] - 1] == 0 for n in nodes(x))
 
-    def walk(x):
-        if x["op"] == "x":
-            return
-        for a in x["a"]:
-            walk(a)
-        vals = [v for i in subtree_leaves(x, []) for v in leaf_values(i)]
-        if x["op"] in ("lt", "lte", "gt", "gte") and any(is_obj(v) for v in vals):
-            fams.add("qexpr-object-order-on-stored-encoding")
-        if x["op"] in ("is", "isnt", "in") and any(is_obj(v) and len(v["n"]) >= 2 for v in vals):
-            fams.add("qexpr-object-equality-named-order-on-stored-encoding")
-        if x["op"] == "div" and x["a"][0]["op"] == "x" and ev["col"][x["a"][0]["i"] - 1] == 0:
-            fams.add("qexpr-const-div-field-assert")
-        if x["op"] == "or" and any(v.get("t") == "str" and v["c"] == [] for i in subtree_leaves(x, []) if ev["col"][i - 1] == 0 for v in leaf_values(i)):
-            # field < "" next to another condition on the same field
-            cols = [ev["col"][i - 1] for i in subtree_leaves(x, []) if ev["col"][i - 1] != 0]
-            if len(cols) != len(set(cols)):
+    def named_order_differs(a, b):
+        return a["t"] == "obj" and b["t"] == "obj" and len(a["n"]) >= 2 and eq(a, b) and \
+            json.dumps(a["n"], sort_keys=True) != json.dumps(b["n"], sort_keys=True)
+    for x in nodes(ev["x"]):
+        op = x["op"]
+        if op == "x":
+            continue
+        for r in rows:
+            vals = [evalx(a, leafval(r)) for a in x["a"]]
+            if any(v is None for v in vals):
+                continue
+            # both operands of an order comparison are objects
+            if op in ("lt", "lte", "gt", "gte") and vals[0]["t"] == "obj" and vals[1]["t"] == "obj":
+                fams.add("qexpr-object-order-on-stored-encoding")
+            # equal objects whose named members are stored in different orders
+            if op in ("is", "isnt", "in") and any(named_order_differs(vals[0], v) for v in vals[1:]):
+                fams.add("qexpr-object-equality-named-order-on-stored-encoding")
+            # constant / field, where (1 / field) * constant is rounded differently
+            if op == "div" and is_const(x["a"][0]) and not is_const(x["a"][1]):
+                n, d = num(vals[0]), num(vals[1])
+                if n is not None and d is not None and n.is_finite() and d.is_finite() and d != 0:
+                    with localcontext() as c:
+                        c.prec = 16
+                        if (Decimal(1) / d) * n != n / d:
+                            fams.add("qexpr-const-div-field-reciprocal")
+            # the folder's absorbing shortcuts (C30 fold-absorbing-shortcut) seen through a query
+            # expression: field * 0, field & 0, field | 0xffffffff, field and false, field or true
+            # where the field's value is not valid for the operator
+            if op in ("mul", "bitand", "bitor", "and", "or") and any(is_const(a) for a in x["a"]) and not all(is_const(a) for a in x["a"]):
+                for k in (0, 1):
+                    c, o = vals[k], vals[1 - k]
+                    if not is_const(x["a"][k]):
+                        continue
+                    absorbing = (op in ("and", "or") and c["t"] == "bool" and c["b"] == (op == "or")) or \
+                        (op in ("mul", "bitand") and num(c) == 0) or (op == "bitor" and num(c) == 4294967295)
+                    dn = num(o)
+                    invalid = (o["t"] != "bool") if op in ("and", "or") else \
+                        (dn is None and not (o["t"] == "bool" and not o["b"]) and o != {"t": "str", "c": []}) or \
+                        (op != "mul" and dn is not None and (not dn.is_finite() or dn != dn.to_integral_value()))
+                    if absorbing and invalid:
+                        fams.add("qexpr-fold-absorbing-shortcut")
+                    if op in ("bitand", "bitor") and num(c) is not None and num(c).is_finite() and \
+                            num(c) == num(c).to_integral_value() and (num(c) < 0 or num(c) > 4294967295):
+                        fams.add("qexpr-fold-bits-32bit-allones")
+            # <operand> or true / <operand> and false with a non-boolean operand before the constant
+            if op in ("and", "or") and is_const(x["a"][1]) and vals[1]["t"] == "bool" and vals[1]["b"] == (op == "or") \
+                    and vals[0]["t"] != "bool":
+                fams.add("qexpr-transform-shortcut")
+        # field < "" (or "" > field) next to another alternative on the same field
+        if op == "or":
+            cols = [ev["col"][n["i"] - 1] for n in nodes(x) if n["op"] == "x" and ev["col"][n["i"] - 1] != 0]
+            emp = any(n["op"] in ("lt", "gt") and any(a["op"] == "x" and ev["col"][a["i"] - 1] == 0 and
+                                                      ev["cv"][a["i"] - 1] == {"t": "str", "c": []} for a in n["a"])
+                      for n in nodes(x))
+            if emp and len(cols) != len(set(cols)):
                 fams.add("qexpr-or-with-empty-alternative-selects-nothing")
-        if x["op"] in ("and", "or") and any(v.get("t") == "bool" and v["b"] == (x["op"] == "or")
-                                            for i in subtree_leaves(x, []) if ev["col"][i - 1] == 0 for v in leaf_values(i)):
-            fams.add("qexpr-transform-shortcut")
-    walk(ev["x"])
     return fams
 
 
@@ -137,7 +179,11 @@ def run(ctx):
             ev = json.loads(lines[ln - 1])
             rows = json.loads(lines[max(i for i in range(ln) if lines[i].startswith('{"e":"Rows"'))])["rows"]
             fams = classify(ev, rows)
-            kf = [f for f in fams if ctx.is_known(f) is not None or f in assume]
+            def recorded(f):
+                if ctx.is_known(f) is not None or f in assume:
+                    return True
+                return f in ALIAS and any((pid, k) == ALIAS[f] for pid, k, _ in ctx.known_entries())
+            kf = [f for f in fams if recorded(f)]
             if kf:
                 # a recorded finding is present in the expression: not reported again (families
                 # that are present but not recorded, e.g. because they are repaired, do not count)
@@ -148,6 +194,11 @@ def run(ctx):
         for f, srcs in known.items():
             if ctx.is_known(f) is not None:
                 ctx.report_rejection(trace, res, key=f)
+            elif f in ALIAS:
+                msg = "KNOWN-FINDING: property=%s key=%s (recorded as property=%s key=%s) %s" % ((ctx.id, f) + ALIAS[f] + (FAMILIES[f],))
+                if msg not in ctx.known:
+                    ctx.known.append(msg)
+                    print(msg, flush=True)
             ctx.log("known finding %s: %d rejected expressions, e.g. %s" % (f, len(srcs), srcs[:3]))
         ctx.cov["rejected_expressions"] = len(bad)
         if not unknown:
